@@ -196,3 +196,43 @@ Example C01_process_only_example :
 Proof. split; [exact xx_input_ok|]. split; [exact xx_builds|]. split; [vm_compute; reflexivity | exact xx_builds_invisible]. Qed.
 
 Print Assumptions C01_process_only_instances_agree.
+
+(* ---- C01 across epochs under an arbitrary policy; the acceptance of the second order is DERIVED ----
+   (proofs/LinkXOrder.v)  same_sets_x: in every epoch that is reached the second schedule has the same events
+   as the first (incl both ways), without repeated ids, in some parents-first order, and no noise; of the
+   first run only epochs_ok_x is asked (input conditions of link_x) and that the reference accepts every
+   event of it.  That the second order is accepted as well follows from C01_acceptance_order_independent,
+   that it has the same forkers from node_indep, its id conditions from the first run's; nothing is assumed
+   about it.  Conclusion: the two instances emit the same blocks (frame, Atropos, cheaters, seal) and go
+   through the same validator sets, epoch by epoch.  The instances may differ in Builds (the example: the
+   second is fed by Process only), noise and restarts. *)
+From LV Require Import proofs.LinkXOrder proofs.LinkXOrderExample.
+
+Theorem C01_agreement_across_epochs_any_policy : forall cap lam pol vals Ss Ss' K,
+  vals <> [] -> epochs_ok_x pol K vals 1 Ss -> same_sets_x pol vals 1 Ss Ss' ->
+  N.of_nat (total_builds Ss) <= K -> N.of_nat (total_builds Ss') <= K -> K < 2 ^ 192 ->
+  map epoch_out (model_epochs_x cap lam pol (start 1 vals) vals 1 Ss') = map epoch_out (model_epochs_x cap lam pol (start 1 vals) vals 1 Ss).
+Proof. exact link_x_same_sets. Qed.
+
+(* the reference side: on a stream it accepts entirely, the blocks up to the seal and the next validators are a
+   function of the final table (hence of the event SET) *)
+Theorem C01_reference_walk_depends_on_the_event_set : forall ep vals sfr sc tn sc' tn',
+  let D := map x_ev sc in let D' := map x_ev sc' in
+  all_accepted vals D -> few_forkers vals (table vals D) -> incl D D' -> incl D' D -> NoDup (ids_of D') -> parents_first D' ->
+  snd (ref_x ep vals sfr [] sc' tn') = snd (ref_x ep vals sfr [] sc tn) /\
+  snd (fst (ref_x ep vals sfr [] sc' tn')) = snd (fst (ref_x ep vals sfr [] sc tn)).
+Proof. exact ref_x_same_set. Qed.
+
+Example C01_across_epochs_any_policy_example :
+  epochs_ok_x xx_pol 400 ex_vals 1 yy_Ss /\ same_sets_x xx_pol ex_vals 1 yy_Ss yy_Ss' /\
+  map (fun Sx => map x_ev (fst Sx)) yy_Ss <> map (fun Sx => map x_ev (fst Sx)) yy_Ss' /\
+  map epoch_out (model_epochs_x 3 xx_lam xx_pol (start 1 ex_vals) ex_vals 1 yy_Ss') =
+  map epoch_out (model_epochs_x 3 xx_lam xx_pol (start 1 ex_vals) ex_vals 1 yy_Ss) /\
+  map epoch_out (model_epochs_x 3 xx_lam xx_pol (start 1 ex_vals) ex_vals 1 yy_Ss') =
+  [ ([(1, 1000, [], None); (2, 1015, [37094], Some (mk_vals xx_vals2))], Some (mk_vals xx_vals2));
+    ([(1, 3002, [], Some (mk_vals ex_vals))], Some (mk_vals ex_vals));
+    ([(1, 5000, [], None); (2, 5015, [37094], None)], None) ].
+Proof. exact (conj yy_ok (conj yy_same_sets (conj yy_differ (conj yy_agreement yy_out)))). Qed.
+
+Print Assumptions C01_agreement_across_epochs_any_policy.
+Print Assumptions C01_reference_walk_depends_on_the_event_set.
